@@ -161,6 +161,21 @@ func (g *c17gen) host(depth int, top bool) *jv.V {
 		h.Set("required", jv.ArrV(jv.StrV("a")))
 		h.Set("type", jv.ArrV(jv.StrV("string"), jv.StrV("object")))
 	}
+	if g.n(3, "nonschema2") == 0 {
+		// keywords whose values are numbers, strings or arbitrary JSON: nothing below them is a schema,
+		// even when it looks like one
+		h.Set("minimum", jv.NumV("1"))
+		h.Set("maxLength", jv.NumV("99"))
+		h.Set("title", jv.StrV("t"))
+		lookalike := jv.ObjV(jv.Member{K: "properties", V: jv.ObjV(jv.Member{K: "a", V: jv.ObjV()})}, jv.Member{K: "not", V: jv.ObjV()}, jv.Member{K: "type", V: jv.StrV("string")})
+		h.Set("default", lookalike.Clone())
+		h.Set("examples", jv.ArrV(lookalike.Clone()))
+		if g.n(3, "constlookalike") == 0 {
+			// (these make the host reject every marker: kept rare)
+			h.Set("const", lookalike.Clone())
+			h.Set("enum", jv.ArrV(lookalike.Clone()))
+		}
+	}
 	return h
 }
 
@@ -291,6 +306,17 @@ func genNegative(t *rapid.T, locs []c17loc) c17Probe {
 			if !l.node.Has(kw) {
 				cands = append(cands, neg{"/" + kw, "absent single-schema keyword"})
 			}
+		}
+		if l.node.Has("minimum") && l.node.Has("default") {
+			if l.node.Has("const") {
+				cands = append(cands, neg{"/const", "non-schema keyword (arbitrary JSON)"}, neg{"/const/properties", "below const"}, neg{"/const/properties/a", "below const"}, neg{"/const/not", "below const"},
+					neg{"/enum/0", "below enum"}, neg{"/enum/0/not", "below enum"}, neg{"/const/properties/a", "below const"})
+			}
+			cands = append(cands,
+				neg{"/minimum", "non-schema keyword"}, neg{"/minimum/type", "below a numeric keyword"}, neg{"/maxLength/items", "below a numeric keyword"},
+				neg{"/maxLength/0", "below a numeric keyword"}, neg{"/title/x", "below a string keyword"}, neg{"/title", "non-schema keyword"},
+				neg{"/default/not", "below default"}, neg{"/default/properties/a", "below default"}, neg{"/default", "non-schema keyword (arbitrary JSON)"}, neg{"/examples/0/not", "below examples"},
+				neg{"/minimum/type", "below a numeric keyword"})
 		}
 		if d := l.node.Get("dependencies"); d != nil && d.Has("strs") {
 			cands = append(cands, neg{"/dependencies/strs", "dependencies entry that is a string list"})
